@@ -64,7 +64,8 @@ def run():
             r = sh("./check %s %s" % (p, cmd_tier), cwd=ROOT, env=env)
             viol = re.findall(r"^VIOLATION property=(\S+) replay=(\S+)", r.stdout, re.M)
             classes = sorted(set(re.findall(r"class=(\S+)", r.stdout + r.stderr)))
-            key = p if tier == "quick" else (p + "@" + env["XSIM_RUNS"] if cmd_tier == "quick" else p + "!" + env["XSIM_TIME"])
+            vsuffix = "/" + os.environ["XSIM_VARIANTS"] if os.environ.get("XSIM_VARIANTS") else ""  # only these build variants (N = NDEBUG)
+            key = p + vsuffix if tier == "quick" else (p + "@" + env["XSIM_RUNS"] if cmd_tier == "quick" else p + "!" + env["XSIM_TIME"])
             results[key] = {"tier": tier, "exit": r.returncode, "caught": bool(viol) and r.returncode == 1,
                           "violations": len(viol), "classes": classes, "wall_s": round(time.time() - t0, 1),
                           "repo_head": sh("git -C %s rev-parse --short HEAD" % REPO).stdout.strip()}
